@@ -360,6 +360,53 @@ func runC07(c *run.Ctx) {
 			}
 		})
 	}
+	// types that agree for d constructor levels and differ only below
+	for d := 1; d <= 72; d++ {
+		if !c.Mine(d) || (c.Tier == "quick" && d > 10 && d%3 != 0 && (d < 28 || d > 36) && (d < 44 || d > 52)) {
+			continue
+		}
+		d := d
+		c.Case(fmt.Sprintf("deep-type/%d", d), func() {
+			for style := 0; style < 3; style++ {
+				mk := func(leaf *ref.V) *ref.V {
+					v := leaf
+					for k := 0; k < d; k++ {
+						switch (k * (style + 1)) % 3 {
+						case 0:
+							v = ref.VList(v.T, v)
+						case 1:
+							v = ref.VMap(ref.TStr, v.T, ref.KV{K: ref.VStr("k"), V: v})
+						default:
+							v = ref.VObj(ref.TObj(ref.F("f", v.T), ref.F("n", ref.TNum)), v, ref.VNum(1))
+						}
+					}
+					return v
+				}
+				good, good2, bad, opt := mk(ref.VNum(1)), mk(ref.VNum(2)), mk(ref.VStr("s")), mk(ref.VJust(ref.TNum, ref.VNum(1)))
+				cenv := bridge.NewEnv()
+				cenv.Put("x", good)
+				cl, err := yae.NewExpr().Compile("len(string(x))", cenv.TypeEnv())
+				if err != nil {
+					c.Violation("env-compile", fmt.Sprintf("an environment with a type %d levels deep does not compile: %v", d, err), nil)
+					return
+				}
+				for i, tc := range []struct {
+					v      *ref.V
+					accept bool
+				}{{good2, true}, {bad, false}, {opt, false}, {good, true}} {
+					be := bridge.NewEnv()
+					be.Put("x", tc.v)
+					c.Count("invocations_checked", 1)
+					_, err := cl(be.ValEnv())
+					if tc.accept != (err == nil) {
+						c.Violation("env-check", fmt.Sprintf("compiled with x of a type %d constructor levels deep (style %d); invoked with a value whose type %s (variant %d): err=%v", d, style, map[bool]string{true: "is equal", false: "differs only at the innermost level"}[tc.accept], i, err), nil)
+						return
+					}
+				}
+			}
+			c.Distinct(fmt.Sprintf("deep-type/%d", d))
+		})
+	}
 	// compile-time type environments that share one composite type node
 	for i := 0; i < c.Pick(300, 20000); i++ {
 		if !c.Mine(i) {
@@ -468,7 +515,7 @@ func sameGoType(c *run.Ctx) {
 func init() {
 	run.Register(&run.Spec{
 		ID: "C07", Run: runC07, Level: "exploration",
-		Rule: "(compile-time environment, run-time environment) pairs over 10 names (primitives, time, lists, maps, objects, nested objects with optional fields) in three forms each (map[string]interface{}, reflection-built struct with permuted field order, raw *types.Env / *val.Env): run-time variants = new values of equal types with extra names, exactly the compile-time names, a dropped name, a value retyped at depth 0-3 (other primitive, other element type, dropped / renamed / retyped object field, optional vs plain); six invocations of ONE Callable per case with conforming and mismatching environments interleaved, including one raw environment object re-bound in place between calls; compile-time type environments sharing one composite node; environments of ONE Go struct type whose type depends on the value (interface-typed field, untagged pointer) alternating on one Callable; the program passes every compile-time name through a recording host function; " +
+		Rule: "(compile-time environment, run-time environment) pairs over 10 names (primitives, time, lists, maps, objects, nested objects with optional fields) in three forms each (map[string]interface{}, reflection-built struct with permuted field order, raw *types.Env / *val.Env): run-time variants = new values of equal types with extra names, exactly the compile-time names, a dropped name, a value retyped at depth 0-3 (other primitive, other element type, dropped / renamed / retyped object field, optional vs plain); six invocations of ONE Callable per case with conforming and mismatching environments interleaved, including one raw environment object re-bound in place between calls; compile-time type environments sharing one composite node; types that agree for 1..72 constructor levels and differ only at the innermost one; environments of ONE Go struct type whose type depends on the value (interface-typed field, untagged pointer) alternating on one Callable; the program passes every compile-time name through a recording host function; " +
 			"monitor: accepted <=> every compile-time name is bound to a value of (reference-)equal type; a refused call leaves an empty host-call trace; an accepted call returns the reference evaluator's value. distinct = (source, form)",
 		Assume:    []string{"reference type of host data is the type of the reference value it was built from (bridge to Go values in props/togo.go)"},
 		MinEvents: 3000, EventKey: "invocations_checked",
